@@ -108,7 +108,7 @@ fn bits_of(sp: &AgentSpec) -> String {
     }
 }
 
-struct XCfg { multi: bool, asset: usize, tick: u32, seed: u64, steps: usize, step_size: u64, start_book: u8, toggles: bool, subject: AgentSpec }
+struct XCfg { warmup: usize, multi: bool, asset: usize, tick: u32, seed: u64, steps: usize, step_size: u64, start_book: u8, toggles: bool, subject: AgentSpec }
 
 /// Seeds of `Xoroshiro128StarStar::seed_from_u64` whose i-th `next_u32` draw (row i) gives `gen::<f32>() == 0.0`
 /// (found by exhaustive search over seeds below 2^29: each such draw has probability 2^-24). With an empty
@@ -128,7 +128,7 @@ fn corner_xcfg(rng: &mut Xoroshiro128StarStar) -> XCfg {
     let i = rng.gen_range(0..12);
     let seed = ZERO_DRAW_SEEDS[i][rng.gen_range(0..4)];
     let f: Vec<String> = vec!["10".into(), "6".into(), tick.to_string(), "0/1".into(), "0/1".into(), "0/1".into(), "3".into(), "0".into(), "1".into()];
-    XCfg { multi, asset, tick, seed, steps: 2, step_size: 10, start_book: 0, toggles: false, subject: AgentSpec { kind: 'N', asset, f } }
+    XCfg { warmup: 0, multi, asset, tick, seed, steps: 2, step_size: 10, start_book: 0, toggles: false, subject: AgentSpec { kind: 'N', asset, f } }
 }
 
 fn gen_xcfg(rng: &mut Xoroshiro128StarStar, only: Option<char>) -> XCfg {
@@ -148,7 +148,7 @@ fn gen_xcfg(rng: &mut Xoroshiro128StarStar, only: Option<char>) -> XCfg {
                   ["1/100", "1/2", "4", "1/7", "-1/2"][rng.gen_range(0..5)].into(), ["0", "1/2", "1", "2", "1/3"][rng.gen_range(0..5)].into(),
                   ["0", "1", "-1"][rng.gen_range(0..3)].into(), ["1/2", "1", "3", "10"][rng.gen_range(0..4)].into()],
     };
-    XCfg { multi, asset, tick, seed: rng.gen_range(0..1_000_000), steps: [2usize, 5, 12, 30][rng.gen_range(0..4)],
+    XCfg { warmup: rng.gen_range(0..4), multi, asset, tick, seed: rng.gen_range(0..1_000_000), steps: [2usize, 5, 12, 30][rng.gen_range(0..4)],
            step_size: [1u64, 3, 50, 1000][rng.gen_range(0..4)], start_book: rng.gen_range(0..6), toggles: rng.gen::<f64>() < 0.3,
            subject: AgentSpec { kind, asset, f } }
 }
@@ -212,8 +212,10 @@ fn run_x<E: EnvLike<10>, W: Write>(hid: &str, cfg: &XCfg, env: E, mut update: im
     let dist = LogNormal::<f64>::new(mu, sigma).unwrap();
     let mut mom_m: f64 = 0.0;
     let mut mom_last: Option<f64> = None;
-    for _step in 0..cfg.steps {
+    for _step in 0..(cfg.steps + cfg.warmup) {
         if live.dead { return; }
+        // the first `warmup` rounds only move the market: the agent joins a simulation that is already running
+        let warming = _step < cfg.warmup;
         // keep the market moving
         let (bb, ba) = live.env.book(a).bid_ask();
         match hr.gen_range(0..6) {
@@ -230,6 +232,7 @@ fn run_x<E: EnvLike<10>, W: Write>(hid: &str, cfg: &XCfg, env: E, mut update: im
             _ => {}
         }
         if live.dead { return; }
+        if warming { emit(&mut live, &EOp::Step, w); continue; }
         // the tanh table: the documented recurrence on the mid the agent is about to observe
         let mid = live.env.book(a).mid_price();
         let mut th = String::from("-");
